@@ -191,12 +191,18 @@ pub fn replay(input: &str, output: &str) -> i32 {
     let mut total = 0usize;
     let mut bad = 0usize;
     let mut evals = 0usize;
+    // crash/hang attribution: the id of the behaviour being executed is written
+    // (and flushed) to $GVH_PROGRESS before it starts
+    let progress = std::env::var("GVH_PROGRESS").ok();
     for line in std::io::BufReader::new(f).lines() {
         let line = line.unwrap();
         if line.trim().is_empty() {
             continue;
         }
         let b: Value = serde_json::from_str(&line).expect("bad behaviour json");
+        if let Some(p) = &progress {
+            let _ = std::fs::write(p, b["id"].to_string());
+        }
         let o = run_behaviour(&b);
         total += 1;
         evals += o.evaluations;
